@@ -6,6 +6,7 @@ import (
 	"fmt"
 	"io"
 	"strconv"
+	"strings"
 
 	"github.com/freeconf/yang/node"
 	"github.com/freeconf/yang/val"
@@ -125,9 +126,11 @@ func (wtr *JSONWtr) container(lvl int) node.Node {
 			wtr._out.WriteString("\n")
 			end := 2 * lvl
 			if end > len(padding) {
-				panic("too deep nesting")
+				// deeper than the prepared padding, build the indent on demand
+				wtr._out.WriteString(strings.Repeat(" ", end))
+			} else {
+				wtr._out.WriteString(padding[0:end])
 			}
-			wtr._out.WriteString(padding[0:end])
 		}
 		return
 	}
